@@ -227,6 +227,21 @@ pub fn check(st: &mut Stats, c: &C) {
     }
 }
 
+/// cases evaluated as the first library call of a fresh thread and (leg `cold`) of a fresh process
+pub fn cold_list() -> Vec<C> {
+    let mut v = vec![];
+    for n in [0i64, 1, -1, MIN_DAY as i64, MAX_DAY as i64, 11_016, -25_508] {
+        for t in [0i64, 1, 43_200_000_000, DAY_US - 1] {
+            v.push(C::ab(K::Pair, n, t));
+        }
+        v.push(C::ab(K::Cross, n, 0));
+    }
+    for t in [0i64, 1, DAY_US - 1, 43_200_000_000] {
+        v.push(C::ab(K::Tm, t, 0));
+    }
+    v
+}
+
 pub fn run(ctx: &Ctx, st: &mut Stats) {
     cal();
     let times = time_pool();
@@ -287,19 +302,7 @@ pub fn run(ctx: &Ctx, st: &mut Stats) {
             st.eval(&C::ab(K::Cross, n, 0), check);
         }
     }
-    cold_threads(st, "history: first call on a fresh thread", {
-        let mut v = vec![];
-        for n in [0i64, 1, -1, MIN_DAY as i64, MAX_DAY as i64, 11_016, -25_508] {
-            for t in [0i64, 1, 43_200_000_000, DAY_US - 1] {
-                v.push(C::ab(K::Pair, n, t));
-            }
-            v.push(C::ab(K::Cross, n, 0));
-        }
-        for t in [0i64, 1, DAY_US - 1, 43_200_000_000] {
-            v.push(C::ab(K::Tm, t, 0));
-        }
-        v
-    }, check);
+    cold_threads(st, "history: first call on a fresh thread", cold_list(), check);
     let nr = ctx.tier.pick(2_000, 2_000_000, ctx.big(40_000_000, 300_000_000));
     ctx.par(st, "dates x random-times", false, 0, nr, |st, _, rng| {
         let n = rng.range_i64(MIN_DAY as i64, MAX_DAY as i64);
